@@ -5,6 +5,7 @@ import (
 	"io"
 	"os"
 	"os/exec"
+	"sync"
 	"time"
 )
 
@@ -78,16 +79,19 @@ func (c *Cmd) realCmd() *exec.Cmd {
 	return rc
 }
 
-var okState *os.ProcessState
+var (
+	okState     *os.ProcessState
+	okStateOnce sync.Once // (commands of different tools may run at the same time in the free-running tiers)
+)
 
 func (c *Cmd) setState() {
 	switch e := c.err.(type) {
 	case nil:
-		if okState == nil {
+		okStateOnce.Do(func() {
 			rc := exec.Command("/bin/sh", "-c", "exit 0")
 			rc.Run()
 			okState = rc.ProcessState
-		}
+		})
 		c.ProcessState = okState
 	case *exec.ExitError:
 		c.ProcessState = e.ProcessState
